@@ -1,5 +1,6 @@
 import Resolvo.Graph
 import Resolvo.Abs.Fail
+import Resolvo.RenderTruth
 /-!
 # C03 — a conflict report is a truthful, self-contained proof of unsatisfiability
 
@@ -30,6 +31,18 @@ theorem learnt_from_antecedents (why : Cnf) (learnt : Clause) (h : rup why learn
 theorem clauses_truthful (U : Universe) (P : Problem) (history : List Event) (st : St)
     (hacc : runOpt U P history = some st) : ∀ cl ∈ st.db, Prov U P st.origins cl :=
   (run_inv U P history {} st ⟨linv_init, sinv_init U P⟩ hacc).2.prov
+
+/-- **(a) every edge is true** — for the exact model of `Conflict::graph` (`Render.buildGraph`: same nodes, edges and
+    insertion order as the real graph; its edges and the message rendered from it are compared with the real ones on
+    every generated conflict): whatever clauses of an accepted history are blamed, each edge of the graph built from
+    them states a true fact of the provider's data — a requires edge's requirement belongs to its source and its target is
+    one of that requirement's candidates (the unresolved node only if it has none); constrains, lock and exclusion edges
+    point at solvables that really are non-matching, locked out or excluded; forbid edges join solvables of one package. -/
+theorem edges_truthful (U : Universe) (P : Problem) (history : List Event) (st : St)
+    (hacc : runOpt U P history = some st) (ids : List Nat) (hids : ∀ id ∈ ids, id < st.db.length) :
+    ∀ x ∈ Render.nodeEdges (Render.buildGraph U st.origins (ids.map (fun id => (st.db.getD id default).kind))),
+      Render.EdgeTrue U P x.1 x.2.1 x.2.2 :=
+  Render.buildGraph_edges_true U P st (run_inv U P history {} st ⟨linv_init, sinv_init U P⟩ hacc).2 ids hids
 
 /-! Non-vacuity: the graph "root requires {s0}; s0 requires a package without candidates". -/
 def exG : G := [⟨.root, .solv 0, .req (.single 0)⟩, ⟨.solv 0, .unresolved, .req (.single 1)⟩]
